@@ -427,6 +427,32 @@ func NewOpLib() *OpLib {
 		}
 		p.Txs = one("t1", &perptypes.MsgUpdateStopLoss{Creator: w.A("t1").Addr.String(), Id: id, Price: Dec(mulDecStr(w.Env.Atom, "0.9"))})
 	})
+	// a small long (liabilities 40 USDC): per block its borrow interest is below one custody unit
+	// while its funding fee is not — the two settle through different code paths
+	l.Add("perp_open_long_t3_small", "perp_open", 0, func(w *World, p *BlockPlan) {
+		p.Txs = one("t3", perpOpen(w.A("t3"), perptypes.Position_LONG, "5", C("uusdc", 1e7), mulDecStr(w.Env.Atom, "2")))
+	})
+	// a low-leverage long: custody is 11x the liabilities, so per block its funding fee is at least
+	// one custody unit while its borrow interest is below one (funding>0, interest==0)
+	l.Add("perp_open_long_t3_lowlev", "perp_open", 0, func(w *World, p *BlockPlan) {
+		p.Txs = one("t3", perpOpen(w.A("t3"), perptypes.Position_LONG, "1.1", C("uusdc", 2e8), mulDecStr(w.Env.Atom, "2")))
+	})
+	// bot names the positions of ONE account only (others are not touched in that block)
+	for _, who := range []string{"t1", "t2", "t3"} {
+		who := who
+		l.Add("perp_bot_liquidate_"+who+"_only", "perp_bot", 0, func(w *World, p *BlockPlan) {
+			reqs := []perptypes.PositionRequest{}
+			for _, m := range w.App.PerpetualKeeper.GetAllMTPs(w.RCtx()) {
+				if m.Address == w.A(who).Addr.String() {
+					reqs = append(reqs, perptypes.PositionRequest{Address: m.Address, Id: m.Id})
+				}
+			}
+			if len(reqs) == 0 {
+				reqs = append(reqs, perptypes.PositionRequest{Address: w.A(who).Addr.String(), Id: 1})
+			}
+			p.Txs = one("bot", &perptypes.MsgClosePositions{Creator: w.A("bot").Addr.String(), Liquidate: reqs})
+		})
+	}
 	l.Add("perp_bot_close_all", "perp_bot", 0, func(w *World, p *BlockPlan) {
 		// bot names every stored position in all three lists (healthy or not)
 		reqs := []perptypes.PositionRequest{}
